@@ -31,7 +31,13 @@ fn norm(mut p: Parts) -> Parts {
 }
 
 fn json_variant(r: &mut Rng, parts: &Parts) -> (String, String) {
-    let extras: [(&str, Value); 3] = [("unknown_member", json!({"a": [1, null]})), ("header", json!({"kid": "x"})), ("signatures", json!([]))];
+    // unknown members, among them names that differ from a known one by letter case, separator or wording, holding what the
+    // known member would hold
+    let kbv = json!(parts.kb.clone().unwrap_or_else(|| "eyJhbGciOiJFUzI1NiIsInR5cCI6ImtiK2p3dCJ9.e30.c2ln".to_string()));
+    let extras: [(&str, Value); 16] = [("unknown_member", json!({"a": [1, null]})), ("header", json!({"kid": "x"})), ("signatures", json!([])),
+        ("key_binding_jwt", kbv.clone()), ("kbJwt", kbv.clone()), ("kb-jwt", kbv.clone()), ("KB_JWT", kbv.clone()), ("kb", kbv.clone()), ("holder_binding", kbv),
+        ("Disclosures", json!(parts.disclosures)), ("disclosure", json!(parts.disclosures.first())), ("_disclosures", json!(["x"])),
+        ("Payload", json!("e30")), ("PROTECTED", json!("e30")), ("jwt", json!(parts.jwt)), ("sd_jwt", json!(parts.compact()))];
     let kb_null = r.chance(1, 2);
     let extra = if r.chance(1, 2) { Some(r.pick(&extras).clone()) } else { None };
     let label = format!(
@@ -379,6 +385,51 @@ pub fn run(ctx: &mut Ctx, replay: Option<&str>) {
         }
     }
 
+    // 6. the issuer-signed JWT re-signed (same payload, same key) under other protected headers: whatever a header member means,
+    //    it means the same in both serializations
+    {
+        let mut taken = 0;
+        for (k, (f, ps)) in flows.iter().zip(&presented).enumerate() {
+            if taken >= ctx.tier.pick(5, 25) {
+                break;
+            }
+            let p = match ps.first() {
+                Some(Some(p)) => p,
+                _ => continue,
+            };
+            let parts = match split(f.issue.fmt, p) {
+                Some(x) => x,
+                None => continue,
+            };
+            let payload = match parts.payload() {
+                Some(x) => x,
+                None => continue,
+            };
+            taken += 1;
+            let alg = parts.header().and_then(|h| h.get("alg").and_then(Value::as_str).map(String::from)).unwrap_or(f.issue.key.alg().to_string());
+            let mut headers: Vec<(String, Value)> = vec![];
+            for typ in [json!("JWT"), json!("jwt"), json!("sd+jwt"), json!("vc+sd-jwt"), json!("example+sd-jwt"), json!("vc+jwt"), json!("kb+jwt"), json!("at+jwt"), json!(""), json!("application/sd-jwt"), json!("SD+JWT")] {
+                headers.push((format!("typ-{}", typ), json!({"alg": alg, "typ": typ})));
+            }
+            headers.push(("no-typ".into(), json!({"alg": alg})));
+            headers.push(("kid".into(), json!({"alg": alg, "kid": "issuer-key-1"})));
+            headers.push(("cty".into(), json!({"alg": alg, "cty": "json", "typ": "vc+sd-jwt"})));
+            headers.push(("crit".into(), json!({"alg": alg, "crit": ["exp"], "exp": 1})));
+            headers.push(("unknown-member".into(), json!({"alg": alg, "zz": {"a": [1]}})));
+            headers.push(("x5c".into(), json!({"alg": alg, "x5c": ["MIIB"]})));
+            for (name, hdr) in headers {
+                let jwt = sign_token(&hdr, &payload, f.issue.key, &alg);
+                let q = Parts { jwt, disclosures: parts.disclosures.clone(), kb: None };
+                let mut va = f.verify_args(p);
+                va.aud = None;
+                va.nonce = None;
+                let a = VerifyArgs { input: q.compact(), fmt: Fmt::Compact, ..va.clone() };
+                let b = VerifyArgs { input: q.json_form(k % 2 == 0, None), fmt: Fmt::Json, ..va.clone() };
+                ctx.count("transcoding.compact->json:resigned-header");
+                pairs.push(Pair { name: format!("resigned-header:{}", name), a, b, origin: json!({"flow": f.json(), "header": hdr}) });
+            }
+        }
+    }
     let mut raw_attacks: Vec<Attack> = vec![];
     // 5. JSON texts that no serde_json::Value can express: unknown members whose raw text is a number outside every
     //    machine range, nesting beyond any recursion limit, escapes of lone surrogates, repeated unknown members; and the
